@@ -173,9 +173,9 @@ func (g *guard) ReleaseTreasureGuard(guardID ID) {
 
 	if len(g.waitForUnlock) > 0 && g.waitForUnlock[0] == int64(guardID) {
 		g.waitForUnlock = g.waitForUnlock[1:]
-		if len(g.waitForUnlock) == 0 {
-			atomic.StoreInt64(&g.largestGuardID, 0)
-		}
+		// largestGuardID is deliberately never reset: guard IDs must stay unique for the
+		// lifetime of the guard, otherwise a stale (duplicate) release issued by an earlier
+		// holder would match the ID of a later holder and release its transaction.
 		g.cond.Broadcast()
 		return
 	}
